@@ -165,13 +165,14 @@ type NetCall struct {
 }
 
 type SimNet struct {
-	Self     peer.ID
-	mu       sync.Mutex
-	Calls    []NetCall
-	Raw      []datatransfer.Message // parallel to the "send" calls
-	SendFail []bool                 // script: outcome of the next SendMessage calls (true = fail); default ok
-	Recv     network.Receiver
-	OnSend   func(to peer.ID, m datatransfer.Message) // optional delivery hook (called outside mu, only for successful sends)
+	Self       peer.ID
+	mu         sync.Mutex
+	Calls      []NetCall
+	Raw        []datatransfer.Message // parallel to the "send" calls
+	SendFail   []bool                 // script: outcome of the next SendMessage calls (true = fail); default ok
+	Recv       network.Receiver
+	OnSend     func(to peer.ID, m datatransfer.Message) // optional delivery hook (called outside mu, only for successful sends)
+	OnSendGate func()                                   // optional: called (outside mu) before SendMessage returns; a blocking gate holds the sender there
 }
 
 func (n *SimNet) add(c NetCall) {
@@ -198,7 +199,11 @@ func (n *SimNet) SendMessage(ctx context.Context, to peer.ID, m datatransfer.Mes
 	n.Calls = append(n.Calls, NetCall{What: "send", To: PeerName(to), Msg: DescribeMsg(m), OK: !fail})
 	n.Raw = append(n.Raw, m)
 	cb := n.OnSend
+	gate := n.OnSendGate
 	n.mu.Unlock()
+	if gate != nil {
+		gate()
+	}
 	if fail {
 		return errors.New("simnet: send failed")
 	}
